@@ -2318,7 +2318,7 @@ class Connection_Manager( Object ):
             large		= T_O.large or O_T.large
             if service is None:
                 data.service	= cls.FWD_OPLG_REQ if large else cls.FWD_OPEN_REQ
-            assert data.service == cls.FWD_OPLG_REQ if large else cls.FWD_OPEN_REQ, \
+            assert data.service == ( cls.FWD_OPLG_REQ if large else cls.FWD_OPEN_REQ ), \
                 "Forward Open service code incompatible with T_O or O_T connection size"
             T_O.large = O_T.large = large
             fo.T_O		= T_O.decoding
